@@ -1,10 +1,229 @@
-(* C19 — property theorems (statements only; proofs live in Proofs.v). *)
+(* C19 — property theorems (statements only; proofs live in Proofs*.v).
+   All theorems are about the executable model Model.v of /repo/avl-tree.go
+   and quantify over ALL trees / worlds / operation histories (no bounds). *)
 From Coq Require Import ZArith List Bool.
-From ADV Require Import C19.Model C19.Spec C19.Proofs.
+From ADV Require Import C19.Model C19.ModelP C19.Spec C19.Proofs.
 Import ListNotations.
 Open Scope Z_scope.
 
+(* ---- building blocks ------------------------------------------------------ *)
 Theorem rotations_preserve_elements :
   forall t, elements (rotLL t) = elements t /\ elements (rotRR t) = elements t /\
             elements (rotLR t) = elements t /\ elements (rotRL t) = elements t.
 Proof. intro t. exact (conj (rotLL_elements t) (conj (rotRR_elements t) (conj (rotLR_elements t) (rotRL_elements t)))). Qed.
+
+(* Insert: the key list becomes [sadd i], the flag says "was absent", the tree
+   stays a balanced search tree (balance field = height difference in -1..1). *)
+Theorem insert_refines_set :
+  forall i nx t, avl t -> bst t ->
+  let '(t', ok, bd, nx') := ins i nx t in
+  avl t' /\ bst t' /\ ok = negb (smem i (elements t)) /\
+  elements t' = (if ok then sadd i (elements t) else elements t) /\
+  height t' = height t + (if ok && negb bd then 1 else 0).
+Proof. exact ins_refines_lemma. Qed.
+
+(* Delete (deleteRec / replace / balance1 / balance2 with the value-swapping
+   rotations): key list becomes [sdel i], flag = membership, AVL kept. *)
+Theorem delete_refines_set :
+  forall i t, avl t -> bst t ->
+  let '(t', ok, bd, d) := del i t in
+  let t'' := if ok then t' else t in
+  avl t'' /\ bst t'' /\ ok = smem i (elements t) /\
+  elements t'' = sdel i (elements t) /\
+  height t'' = height t - (if ok && negb bd then 1 else 0).
+Proof. exact del_refines_lemma. Qed.
+
+(* FindNode, FindNodeLE (as coded: smallest key >= i), left-most node *)
+Theorem lookups_refine_set :
+  forall i t, bst t ->
+  (match find i t with
+   | Some (_, v) => v = i /\ smem i (elements t) = true
+   | None => smem i (elements t) = false end) /\
+  option_map snd (find_le i t None) = first_ge i (elements t) /\
+  option_map snd (leftmost t) = hd_error (elements t).
+Proof. intros i t H. exact (conj (find_spec i t H) (conj (find_le_first_ge i t H) (leftmost_spec t))). Qed.
+
+(* ---- 1. invariant over all histories -------------------------------------- *)
+(* every tree (original or clone) of every world reachable from [init] by ANY
+   list of operations with int64 keys is a search tree with exact balance
+   fields in -1..1 and int64 keys *)
+Theorem reachable_trees_balanced_search_trees :
+  forall w, reach w ->
+  Forall (fun ts => bst (tr ts) /\ avl (tr ts) /\ Forall in_range (elements (tr ts))) (trees w).
+Proof. exact reach_invariant_lemma. Qed.
+
+(* an AVL-balanced tree of height h holds at least 2^(h/2) - 1 keys *)
+Theorem avl_height_logarithmic :
+  forall t, avl t -> 2 ^ (height t / 2) <= Z.of_nat (length (elements t)) + 1.
+Proof. exact avl_height_bound. Qed.
+
+(* ---- 2. set refinement of whole histories --------------------------------- *)
+(* For EVERY operation list with int64 keys, what the model of avl-tree.go
+   observes (Insert/Delete flags, Find, FindLE, Clone, Elems, iterator creation,
+   iterator clone, Next: ok-flag and value) is exactly what the set-level
+   specification observes; this includes live iterators under interleaved
+   Insert/Delete/Clone, Clone independence and the MaxInt cursor.  Indices of
+   trees/iterators that do not exist are handled alike on both sides, so
+   well-formedness of the history is not even needed. *)
+Theorem history_refines_set_spec :
+  forall ops, keys_in_range ops -> observe ops (run init ops) = arun ainit ops.
+Proof. exact run_refines_lemma. Qed.
+
+Theorem wf_history_refines_set_spec :
+  forall ops, wf_ops 1 0 ops -> keys_in_range ops -> observe ops (run init ops) = arun ainit ops.
+Proof. exact wf_run_refines_lemma. Qed.
+
+(* ---- live iterators, stated directly -------------------------------------- *)
+(* in any reachable world, whatever happened to the tree since the iterator
+   was positioned, Next moves a live iterator to the first key of the CURRENT
+   set that is greater than its cursor value, and ends it iff there is none *)
+Theorem next_moves_to_first_greater_of_current_set :
+  forall w k, reach w ->
+  let it := nth k (iters w) dflt_iter in
+  let s := elements (tr (nth (itree it) (trees w) t0)) in
+  let it' := nth k (iters (fst (step w (Next k)))) dflt_iter in
+  (k < length (iters w))%nat -> inode it <> None ->
+  match first_gt (ival it) s with
+  | Some x => inode it' <> None /\ ival it' = x
+  | None => inode it' = None
+  end.
+Proof. exact next_live_lemma. Qed.
+
+(* Insert/Delete touch one tree only; Clone appends an equal tree and leaves
+   all other trees and all iterators alone *)
+Theorem mutation_is_local :
+  forall w t t2 i, t2 <> t ->
+  nth t2 (trees (fst (step w (Ins t i)))) t0 = nth t2 (trees w) t0 /\
+  nth t2 (trees (fst (step w (Del t i)))) t0 = nth t2 (trees w) t0.
+Proof. exact mutation_local_lemma. Qed.
+
+Theorem clone_copies :
+  forall w t,
+  let w' := fst (step w (Clone t)) in
+  tr (nth (length (trees w)) (trees w') t0) = tr (nth t (trees w) t0) /\
+  (forall t2, (t2 < length (trees w))%nat -> nth t2 (trees w') t0 = nth t2 (trees w) t0) /\
+  iters w' = iters w.
+Proof. exact clone_copies_lemma. Qed.
+
+(* ---- complete iterations over an unchanged tree ---------------------------- *)
+(* in any reachable world, Iterator() followed by Next() until it ends visits
+   exactly the keys of the tree in ascending order, then reports the end *)
+Theorem full_iteration_visits_the_set_ascending :
+  forall w t, reach w ->
+  let s := elements (tr (nth t (trees w) t0)) in
+  let ops := ItBegin t :: repeat (Next (length (iters w))) (length s) in
+  observe ops (run w ops) = map (fun x => (true, x, [])) s ++ [(false, 0, [])].
+Proof. exact iterate_all_lemma. Qed.
+
+(* IteratorFrom(i) visits exactly the keys >= i, ascending *)
+Theorem iteration_from_lower_bound :
+  forall w t i, reach w -> in_range i ->
+  let s := suffix_ge i (elements (tr (nth t (trees w) t0))) in
+  let ops := ItFrom t i :: repeat (Next (length (iters w))) (length s) in
+  observe ops (run w ops) = map (fun x => (true, x, [])) s ++ [(false, 0, [])].
+Proof. exact iterate_from_lemma. Qed.
+
+Theorem suffix_ge_is_filter :
+  forall i l, sset l -> suffix_ge i l = filter (fun x => i <=? x) l.
+Proof. exact suffix_ge_filter. Qed.
+
+(* ---- node identities and tombstones ---------------------------------------- *)
+(* in every reachable world: node ids of a tree are pairwise distinct and below
+   the allocation counter, tombstoned ids are not in the tree, and the node an
+   iterator points to is a live node of its tree or a tombstone of that tree *)
+Theorem reachable_ids_consistent :
+  forall w, reach w ->
+  Forall (fun ts => NoDup (ids (tr ts)) /\
+                    (forall k, In k (ids (tr ts)) -> (k < nx ts)%nat) /\
+                    (forall k, In k (dead ts) -> ~ In k (ids (tr ts)))) (trees w) /\
+  Forall (fun it => forall k, inode it = Some k ->
+            In k (ids (tr (nth (itree it) (trees w) t0))) \/
+            In k (dead (nth (itree it) (trees w) t0))) (iters w).
+Proof. exact reach_ids_lemma. Qed.
+
+(* the model's re-find test (tombstoned, value changed, or node not in the tree)
+   is Go's test  node.Deleted || value != node.Value : a node that left the tree
+   is always tombstoned *)
+Theorem node_gone_implies_tombstoned :
+  forall w k n, reach w ->
+  let it := nth k (iters w) dflt_iter in
+  let ts := nth (itree it) (trees w) t0 in
+  inode it = Some n -> value_at n (tr ts) = None -> existsb (Nat.eqb n) (dead ts) = true.
+Proof. exact refind_faithful_lemma. Qed.
+
+(* ---- stored parent pointers (ModelP.v) -------------------------------------- *)
+(* for EVERY history of Insert/Delete on a tree, the pointer-level model (which
+   updates AvlNode.Parent exactly where avl-tree.go does) has stored parents
+   equal to the structural parents everywhere (root: nil), and forgetting the
+   Parent field gives exactly the tree and id counter of Model.v *)
+Theorem stored_parents_equal_structural_parents :
+  forall ops,
+  let s := fold_left pstep ops (PE, O) in
+  pwf None (fst s) /\ (erase (fst s), snd s) = fold_left mstep ops (E, O).
+Proof. exact stored_parents_lemma. Qed.
+
+(* ... and [mstep] is what Model.step does to tree 0 of a world *)
+Theorem model_tree0_follows_mstep :
+  forall ops w, (0 < length (trees w))%nat ->
+  let w' := fold_left (fun w o => fst (step w o)) (map to_op ops) w in
+  (0 < length (trees w'))%nat /\
+  (tr (nth 0 (trees w') t0), nx (nth 0 (trees w') t0)) =
+  fold_left mstep ops (tr (nth 0 (trees w) t0), nx (nth 0 (trees w) t0)).
+Proof. exact tree0_mstep. Qed.
+
+(* ---- non-vacuity ----------------------------------------------------------- *)
+(* a history with single and double rotations on insert and delete, deletions
+   of the cursor element and of other elements under live iterators, a clone
+   that diverges, and the MaxInt cursor *)
+Definition ex_ops : list op :=
+  [Ins 0 5; Ins 0 3; Ins 0 4 (* LR *); Ins 0 8; Ins 0 9 (* RR *); Ins 0 7 (* RL *);
+   Ins 0 1; Ins 0 2; Ins 0 6; Ins 0 MAXI; Ins 0 5;
+   ItBegin 0; Next 0; Del 0 2 (* cursor element *); Next 0; Del 0 5; Ins 0 10; Next 0;
+   Clone 0; Del 1 7; Del 1 1; Del 1 3 (* rebalancing deletes *); ItFrom 1 6; Next 1; ItClone 0;
+   Next 0; Next 0; Next 0; Next 0; Next 0 (* reaches MAXI *); Del 0 MAXI; Next 0 (* ends *); Next 0;
+   Next 2; Elems 0; Elems 1; FindLE 0 5; Find 0 5; Find 1 6; Del 0 77].
+
+Example ex_hypotheses : keys_in_range ex_ops /\ wf_ops 1 0 ex_ops.
+Proof.
+  split.
+  - apply Forall_forall. intros o Ho. unfold ex_ops in Ho. simpl in Ho.
+    repeat (destruct Ho as [<-|Ho]; [first [exact I | vm_compute; split; discriminate]|]).
+    destruct Ho.
+  - vm_compute. intuition auto with arith.
+Qed.
+
+Example ex_observed :
+  arun ainit ex_ops =
+  [(true,0,[]); (true,0,[]); (true,0,[]); (true,0,[]); (true,0,[]); (true,0,[]);
+   (true,0,[]); (true,0,[]); (true,0,[]); (true,0,[]); (false,0,[]);
+   (true,1,[]); (true,2,[]); (true,0,[]); (true,3,[]); (true,0,[]); (true,0,[]); (true,4,[]);
+   (true,0,[]); (true,0,[]); (true,0,[]); (true,0,[]); (true,6,[]); (true,8,[]); (true,4,[]);
+   (true,6,[]); (true,7,[]); (true,8,[]); (true,9,[]); (true,10,[]); (true,0,[]); (false,0,[]); (false,0,[]);
+   (true,6,[]); (true,0,[1;3;4;6;7;8;9;10]); (true,0,[4;6;8;9;10;MAXI]); (true,6,[]); (false,0,[]); (true,0,[]); (false,0,[])].
+Proof. vm_compute. reflexivity. Qed.
+
+(* the third insertion really is a double (LR) rotation with value swapping:
+   node 0 stays on top and now holds 4 *)
+Example ex_double_rotation :
+  fst (fst (fst (ins 4 2 (N 0 (N 1 E 3 0 E) 5 (-1) E)))) = N 0 (N 1 E 3 0 E) 4 0 (N 2 E 5 0 E).
+Proof. reflexivity. Qed.
+
+(* the world after ex_ops is reachable and its trees are not trivial *)
+Example ex_reach_nontrivial :
+  exists w, reach w /\ map (fun ts => height (tr ts)) (trees w) = [4; 3].
+Proof.
+  exists (fold_left (fun w o => fst (step w o)) ex_ops init). split.
+  - unfold ex_ops. cbn [fold_left].
+    repeat (apply reach_step; [|vm_compute; try split; try discriminate; exact I]). apply reach_init.
+  - vm_compute. reflexivity.
+Qed.
+
+(* the pointer-level model on a history with all four rotations and two-child
+   deletes: stored parents of the final tree, listed in preorder as (id, parent) *)
+Fixpoint parents (t : ptree) : list (nat * option nat) := match t with
+  | PE => [] | PN id l _ _ p r => (id, p) :: parents l ++ parents r end.
+Example ex_stored_parents :
+  parents (fst (fold_left pstep
+     [MIns 5; MIns 3; MIns 4; MIns 8; MIns 9; MIns 7; MIns 1; MIns 2; MIns 6; MDel 5; MDel 7; MDel 1; MDel 3] (PE, O)))
+  = [(1%nat, None); (3%nat, Some 1%nat); (2%nat, Some 1%nat); (8%nat, Some 2%nat); (4%nat, Some 2%nat)].
+Proof. vm_compute. reflexivity. Qed.
